@@ -98,6 +98,25 @@ def verGeL (v : List Nat) (a b : Nat) : Bool :=
   | [x] => x > a || (x == a && 0 ≥ b)
   | [] => false
 
+/-! t_code's integer fields, each with the version tests of the Python source -/
+def argcountM (c : Cfg) : M Int :=
+  if verGeL c.version 2 3 then rI32 else if verGeL c.version 1 3 then rI16 else pure 0
+def posonlyM (c : Cfg) : M V :=
+  if verGeL c.version 3 8 then
+    (if c.magic = 3400 ∨ c.magic = 3401 ∨ c.magic = 3410 ∨ c.magic = 3411 then pure (.int 0)
+     else do let x ← rI32; pure (.int x)) else pure .none
+def kwonlyM (c : Cfg) : M Int := if verGeL c.version 3 0 then rI32 else pure 0
+def nlocalsM (c : Cfg) : M Int :=
+  if !(verGeL c.version 3 11) then
+    (if verGeL c.version 2 3 then rI32 else if verGeL c.version 1 3 then rI16 else pure 0) else pure 0
+def stacksizeM (c : Cfg) : M Int :=
+  if verGeL c.version 2 3 then rI32 else if verGeL c.version 1 5 then rI16 else pure 0
+def flagsM (c : Cfg) : M Int :=
+  if verGeL c.version 2 3 then rI32 else if verGeL c.version 1 3 then rI16 else pure 0
+/-- co_firstlineno exists from 1.5 -/
+def firstM (c : Cfg) : M Int :=
+  if verGeL c.version 1 5 then (if verGeL c.version 2 3 then rI32 else rI16) else pure (-1)
+
 mutual
 /-- `r_object(bytes_for_s)`; `none` result = Python `None` from an unknown type code is modelled as V.none -/
 def rObject (c : Cfg) : Nat → Nat → Bool → M V
@@ -247,14 +266,12 @@ def rCode (c : Cfg) : Nat → Nat → Bool → M V
     let slot ← rRefReserve .none save
     let v := c.version
     let ge := verGeL v
-    let argcount ← if ge 2 3 then rI32 else if ge 1 3 then rI16 else pure 0
-    let posonly : V ← if ge 3 8 then
-        (if c.magic = 3400 ∨ c.magic = 3401 ∨ c.magic = 3410 ∨ c.magic = 3411 then pure (.int 0)
-         else do let x ← rI32; pure (.int x)) else pure .none
-    let kwonly ← if ge 3 0 then rI32 else pure 0
-    let nlocals ← if !(ge 3 11) then (if ge 2 3 then rI32 else if ge 1 3 then rI16 else pure 0) else pure 0
-    let stacksize ← if ge 2 3 then rI32 else if ge 1 5 then rI16 else pure 0
-    let flags ← if ge 2 3 then rI32 else if ge 1 3 then rI16 else pure 0
+    let argcount ← argcountM c
+    let posonly ← posonlyM c
+    let kwonly ← kwonlyM c
+    let nlocals ← nlocalsM c
+    let stacksize ← stacksizeM c
+    let flags ← flagsM c
     let code ← rObject c fuel (depth + 1) true
     let bfs := ge 3 0
     if c.isGraal then
@@ -288,17 +305,13 @@ def rCode (c : Cfg) : Nat → Nat → Bool → M V
         ("co_cellvars", .tuple cs), ("co_filename", filename), ("co_name", name), ("co_qualname", qualname),
         ("co_firstlineno", .int firstlineno), ("co_linetable", linetable), ("co_exceptiontable", exctable)]) slot
     else do
-      let varnames ← if ge 1 3 then rObject c fuel (depth + 1) false else pure (.tuple [])
-      let (freevars, cellvars) ← if ge 2 1 then do
-          let f ← rObject c fuel (depth + 1) bfs
-          let cl ← rObject c fuel (depth + 1) bfs
-          pure (f, cl) else pure (V.tuple [], V.tuple [])
+      let varnames ← (if ge 1 3 then rObject c fuel (depth + 1) false else pure (.tuple []))
+      let freevars ← (if ge 2 1 then rObject c fuel (depth + 1) bfs else pure (V.tuple []))
+      let cellvars ← (if ge 2 1 then rObject c fuel (depth + 1) bfs else pure (V.tuple []))
       let filename ← rObject c fuel (depth + 1) bfs
       let name ← rObject c fuel (depth + 1) bfs
-      let (firstlineno, lnotab) ← if ge 1 5 then do
-          let fl ← if ge 2 3 then rI32 else rI16
-          let lt ← rObject c fuel (depth + 1) true
-          pure (fl, lt) else pure ((-1 : Int), V.bytes [])
+      let firstlineno ← firstM c
+      let lnotab ← (if ge 1 5 then rObject c fuel (depth + 1) true else pure (V.bytes []))
       rRefInsert (.code [("co_argcount", .int argcount), ("co_posonlyargcount", posonly), ("co_kwonlyargcount", .int kwonly),
         ("co_nlocals", .int nlocals), ("co_stacksize", .int stacksize), ("co_flags", .int flags), ("co_code", code),
         ("co_consts", consts), ("co_names", names), ("co_varnames", varnames), ("co_freevars", freevars),
